@@ -1,13 +1,179 @@
 -------------------------------- MODULE C08 --------------------------------
 EXTENDS ObjModel, Json, IOUtils, SequencesExt
 
+VARIABLE c_cell          \* Part B: the call-form cell being enumerated / judged (Part A keeps it constant)
+NoCell == [form |-> "", kind |-> "", ret |-> ""]
+
 EnvOr(n, d) == IF n \in DOMAIN IOEnv THEN IOEnv[n] ELSE d
 NatOf == [t \in {ToString(j) : j \in 0..64} |-> CHOOSE j \in 0..64 : ToString(j) = t]
 MaxLen == NatOf[EnvOr("MAXLEN", "2")]
 
-EInit == MInit /\ PrintT(ToJson([on |-> BatteryOn, objs |-> BatteryObjs, glob |-> BatteryGlob]))
-ENext == Len(m_hist) < MaxLen /\ MNext
+\* the operations random generators may draw from: the alphabet of states with 0..3 allocated slots
+USt(n) == [State0 EXCEPT !.h = [x \in Ids |-> IF \E j \in 1..n : Slots[j] = x THEN Plain("OP") ELSE State0.h[x]]]
+Universe == UNION {Alphabet(USt(n), 1) : n \in 0..3}
+EInit == /\ MInit /\ c_cell = NoCell
+         /\ PrintT(ToJson([on |-> BatteryOn, objs |-> BatteryObjs, glob |-> BatteryGlob]))
+         /\ PrintT(ToJson([universe |-> Universe]))
+ENext == Len(m_hist) < MaxLen /\ MNext /\ UNCHANGED c_cell
 EmitAll == m_hist = <<>> \/ PrintT(ToJson([h |-> m_hist]))
-EmitLast == Len(m_hist) < MaxLen \/ PrintT(ToJson([h |-> m_hist]))
+\* -simulate walks: TLC evaluates invariants on every candidate successor, so a walk is printed by the one
+\* extra step taken from the state the walk actually reached
+SimInit == MInit /\ c_cell = NoCell
+SimNext == /\ UNCHANGED c_cell
+           /\ IF Len(m_hist) < MaxLen THEN MNext
+              ELSE /\ Len(m_hist) = MaxLen
+                   /\ PrintT(ToJson([h |-> m_hist]))
+                   /\ m_hist' = Append(m_hist, Op("end", "", "", "", 0, ""))
+                   /\ UNCHANGED <<m_st, m_prev>>
 
+\* ==============================================================================================
+\* Part B: call form x function kind.  Strict-mode semantics (this is undefined in plain calls).
+\* Driver setup (checks/c08_driver.py):  every function takes (a, b) and returns the probe
+\*   [this, arguments.length, arguments[0], arguments[1], a, b];  calls pass (1, 2);
+\*   bound = fd.bind(bt, 5);  the arrow is created inside host.mk(7, 8);  native = Object.prototype.valueOf;
+\*   the getter is a literal accessor of recv (form "method" = the property access recv.f);
+\*   form "arrow" calls recv.go() with go = function(){ return (() => this.f(1, 2))(); }.
+Forms == {"method", "plain", "call", "apply", "bind", "new", "arrow"}
+Kinds == {"decl", "expr", "named", "arrow", "method", "propfn", "getter", "bound", "native"}
+Rets  == {"none", "num", "str", "null", "undef", "bool", "obj", "arr", "fn"}
+Cells == {[form |-> f, kind |-> k, ret |-> ""] : f \in Forms, k \in Kinds}
+         \cup {[form |-> "newret", kind |-> c, ret |-> r] : r \in Rets, c \in {"decl", "expr", "bound"}}
+         \cup {[form |-> "chain", kind |-> c, ret |-> ""] : c \in {"assign", "setproto", "literal"}}
+SeqSetC(sq) == {sq[j] : j \in 1..Len(sq)}
+CallDevs == {"Dev_ArrowThis", "Dev_ArrowArguments", "Dev_NonConstructorNew", "Dev_NewBound", "Dev_BindOfBound",
+             "Dev_FnNameInference", "Dev_BoundName", "Dev_NativeFn", "Dev_NewReturnFn",
+             "Dev_FnProtoAssign", "Dev_FnProtoNoObjectProto"}
+
+ThisOf(form) == CASE form = "method" -> "@recv" [] form = "plain" -> "u" [] form \in {"call", "apply", "bind"} -> "@x1"
+                  [] form = "new" -> "@?" [] form = "arrow" -> "@recv"
+NonCtor == {"arrow", "method", "getter", "native"}
+P(v) == <<v, "">>                                     \* an expected aspect value with no deviation attached
+D(v, d) == <<v, d>>
+Args(n, x, y, pa, pb) == ("alen" :> P(n)) @@ ("a0" :> P(x)) @@ ("a1" :> P(y)) @@ ("pa" :> P(pa)) @@ ("pb" :> P(pb))
+ArgsD(n, x, y, pa, pb, d) == ("alen" :> D(n, d)) @@ ("a0" :> D(x, d)) @@ ("a1" :> D(y, d)) @@ ("pa" :> D(pa, d)) @@ ("pb" :> D(pb, d))
+Inst(b) == ("linked" :> P(b)) @@ ("inst" :> P(b))
+KindLength(kind) == CASE kind = "getter" -> "n0" [] kind = "bound" -> "n1" [] kind = "native" -> "n0" [] OTHER -> "n2"
+KindName(kind) == CASE kind = "decl" -> "'fd" [] kind = "expr" -> "'fe" [] kind = "named" -> "'nm" [] kind = "arrow" -> "'"
+                    [] kind = "method" -> "'f" [] kind = "propfn" -> "'f" [] kind = "getter" -> "'get f"
+                    [] kind = "bound" -> "'bound fd" [] kind = "native" -> "'valueOf"
+
+\* reference expectation of a product cell: a function aspect -> <<value, "">>
+RefCell(form, kind) ==
+  LET props == ("length" :> P(KindLength(kind))) @@ ("name" :> P(KindName(kind)))
+      okout == "out" :> P("ok")
+      throw == ("out" :> P("!TypeError")) @@ ("this" :> P("u")) @@ Inst("false") @@ Args("u", "u", "u", "u", "u")
+      isnew == form = "new"
+  IN props @@
+     (CASE kind \in NonCtor /\ isnew -> throw
+        [] kind \in {"decl", "expr", "named", "propfn", "method"} ->
+             okout @@ ("this" :> P(ThisOf(form))) @@ Inst(IF isnew THEN "true" ELSE "false") @@ Args("n2", "n1", "n2", "n1", "n2")
+        [] kind = "arrow" -> okout @@ ("this" :> P("@host")) @@ Inst("false") @@ Args("n2", "n7", "n8", "n1", "n2")   \* lexical this and arguments
+        [] kind = "getter" ->
+             IF form \in {"method", "arrow"} THEN okout @@ ("this" :> P("@recv")) @@ Inst("false") @@ Args("n0", "u", "u", "u", "u")
+             ELSE okout @@ ("this" :> P(ThisOf(form))) @@ Inst("false") @@ Args("n2", "n1", "n2", "u", "u")
+        [] kind = "bound" ->                                  \* bound this wins over every call form; new ignores it
+             okout @@ ("this" :> P(IF isnew THEN "@?" ELSE "@bt")) @@ Inst(IF isnew THEN "true" ELSE "false")
+                   @@ Args("n3", "n5", "n1", "n5", "n1")
+        [] kind = "native" ->
+             IF form = "plain" THEN throw
+             ELSE okout @@ ("this" :> P(ThisOf(form))) @@ Inst("false") @@ Args("u", "u", "u", "u", "u"))
+
+Ov(c, upd, base) == IF c THEN upd @@ base ELSE base
+AsIsCell(form, kind, dv) ==
+  LET isnew == form = "new"
+      b0 == RefCell(form, kind)
+      b1 == Ov("Dev_ArrowArguments" \in dv /\ kind = "arrow", ArgsD("n2", "n1", "n2", "n1", "n2", "Dev_ArrowArguments"), b0)
+      b2 == Ov("Dev_ArrowThis" \in dv /\ kind = "arrow" /\ ~isnew, "this" :> D(ThisOf(form), "Dev_ArrowThis"), b1)
+      b3 == Ov("Dev_NonConstructorNew" \in dv /\ isnew /\ kind \in {"arrow", "method", "getter"},
+               ("out" :> D("ok", "Dev_NonConstructorNew")) @@ ("this" :> D("@?", "Dev_NonConstructorNew"))
+               @@ ("linked" :> D("true", "Dev_NonConstructorNew")) @@ ("inst" :> D("true", "Dev_NonConstructorNew"))
+               @@ ArgsD("n2", "n1", "n2", IF kind = "getter" THEN "u" ELSE "n1", IF kind = "getter" THEN "u" ELSE "n2", "Dev_NonConstructorNew"), b2)
+      b4 == Ov("Dev_NewBound" \in dv /\ kind = "bound" /\ isnew,
+               ("this" :> D("@bt", "Dev_NewBound")) @@ ("linked" :> D("false", "Dev_NewBound")) @@ ("inst" :> D("false", "Dev_NewBound")), b3)
+      b5 == Ov("Dev_BindOfBound" \in dv /\ kind = "bound" /\ form = "bind",
+               ("this" :> D("@x1", "Dev_BindOfBound")) @@ ArgsD("n2", "n1", "n2", "n1", "n2", "Dev_BindOfBound"), b4)
+      b6 == Ov("Dev_FnNameInference" \in dv /\ kind \in {"expr", "method", "propfn", "getter"}, "name" :> D("'", "Dev_FnNameInference"), b5)
+      b7 == Ov("Dev_BoundName" \in dv /\ kind = "bound", "name" :> D("'fd", "Dev_BoundName"), b6)
+      b8 == Ov("Dev_NativeFn" \in dv /\ kind = "native",
+               ("length" :> D("u", "Dev_NativeFn")) @@ ("name" :> D("u", "Dev_NativeFn"))
+               @@ (IF form = "plain" THEN ("out" :> D("ok", "Dev_NativeFn")) @@ ("this" :> D("n1", "Dev_NativeFn")) ELSE <<>>), b7)
+      \* form "arrow": the wrapper arrow does not see the this of go(), so this.f fails
+      b9 == Ov("Dev_ArrowThis" \in dv /\ form = "arrow", "out" :> D("!TypeError", "Dev_ArrowThis"), b8)
+  IN b9
+ProductAspects(kind) == IF kind = "native" THEN <<"out", "this", "length", "name">>
+                        ELSE <<"out", "this", "linked", "inst", "alen", "a0", "a1", "pa", "pb", "length", "name">>
+
+\* new-return rules:  function C(){ this.p = 1; return RET }  r = new K()   (K = C, or C.bind(bt))
+RefRet(ret, ctor) ==
+  IF ret \in {"obj", "arr", "fn"}
+  THEN ("out" :> P("ok")) @@ ("this" :> P(CASE ret = "obj" -> "@ro" [] ret = "arr" -> "@ra" [] ret = "fn" -> "@rf"))
+       @@ Inst("false") @@ ("p" :> P("u"))                                   \* an object return value is honoured
+  ELSE ("out" :> P("ok")) @@ ("this" :> P("@?")) @@ Inst("true") @@ ("p" :> P("n1"))   \* a primitive one is ignored
+AsIsRet(ret, ctor, dv) ==
+  LET b0 == RefRet(ret, ctor)
+      b1 == Ov("Dev_NewReturnFn" \in dv /\ ret = "fn",
+               ("this" :> D("@?", "Dev_NewReturnFn")) @@ ("linked" :> D("true", "Dev_NewReturnFn")) @@ ("inst" :> D("true", "Dev_NewReturnFn"))
+               @@ ("p" :> D("n1", "Dev_NewReturnFn")), b0)
+      b2 == Ov("Dev_NewBound" \in dv /\ ctor = "bound" /\ (ret \notin {"obj", "arr", "fn"} \/ (ret = "fn" /\ "Dev_NewReturnFn" \in dv)),
+               ("this" :> D("@?", "Dev_NewBound")) @@ ("linked" :> D("false", "Dev_NewBound")) @@ ("inst" :> D("false", "Dev_NewBound"))
+               @@ ("p" :> D("u", "Dev_NewBound")), b1)
+  IN b2
+RetAspects == <<"out", "this", "linked", "inst", "p">>
+
+\* constructor chains: o = new B() with B.prototype chained to A.prototype by `how`
+ChainAspects == <<"out", "r1", "r2", "r3", "r4", "r5", "r6", "r7", "r8", "r9">>
+RefChain(how) == ("out" :> P("ok")) @@ ("r1" :> P("true")) @@ ("r2" :> P("true")) @@ ("r3" :> P("n1")) @@ ("r4" :> P("n2"))
+                 @@ ("r5" :> P("true")) @@ ("r6" :> P("true")) @@ ("r7" :> P("true")) @@ ("r8" :> P("true")) @@ ("r9" :> P("true"))
+AsIsChain(how, dv) ==
+  LET b1 == Ov("Dev_FnProtoAssign" \in dv /\ how \in {"assign", "literal"},
+               ("r2" :> D("false", "Dev_FnProtoAssign")) @@ ("r6" :> D("false", "Dev_FnProtoAssign")), RefChain(how))
+  IN Ov("Dev_FnProtoNoObjectProto" \in dv, "r7" :> D("'!TypeError", "Dev_FnProtoNoObjectProto"), b1)
+
+CellRef(c) == IF c.form = "chain" THEN RefChain(c.kind) ELSE IF c.form = "newret" THEN RefRet(c.ret, c.kind) ELSE RefCell(c.form, c.kind)
+CellAsIs(c, dv) == IF c.form = "chain" THEN AsIsChain(c.kind, dv) ELSE IF c.form = "newret" THEN AsIsRet(c.ret, c.kind, dv)
+                   ELSE AsIsCell(c.form, c.kind, dv)
+CellAspects(c) == IF c.form = "chain" THEN ChainAspects ELSE IF c.form = "newret" THEN RetAspects ELSE ProductAspects(c.kind)
+
+\* laws of the table itself (model-checked over all cells)
+CallLaws(c) ==
+  /\ CellAsIs(c, {}) = CellRef(c)                                                         \* no deviation = reference
+  /\ \A a \in SeqSetC(CellAspects(c)) : a \in DOMAIN CellRef(c) /\ a \in DOMAIN CellAsIs(c, CallDevs)
+  /\ (c.form \in Forms =>
+        LET r == RefCell(c.form, c.kind) IN
+        /\ RefCell("call", c.kind) = RefCell("apply", c.kind)                             \* call and apply agree
+        /\ (c.kind = "arrow" /\ c.form # "new" => r["this"] = P("@host"))                 \* lexical this
+        /\ (c.kind = "bound" /\ c.form # "new" => r["this"] = P("@bt"))                   \* bound this wins
+        /\ (c.form = "new" => (r["out"] = P("!TypeError")) <=> (c.kind \in NonCtor))
+        /\ (c.form = "new" /\ r["out"] = P("ok") => r["linked"] = P("true") /\ r["inst"] = P("true"))
+        /\ (c.form = "plain" /\ c.kind \in {"decl", "expr", "named", "method", "propfn", "getter"} => r["this"] = P("u")))
+
+CInit == MInit /\ c_cell \in Cells /\ PrintT(ToJson(c_cell))
+CNext == UNCHANGED <<c_cell, m_vars>>
+CLawsHold == CallLaws(c_cell)
+
+\* judge: records [id, cell, obs, dv]
+ActOf(rec, a) ==
+  IF a \in {"r1", "r2", "r3", "r4", "r5", "r6", "r7", "r8", "r9"}
+  THEN LET j == CHOOSE m \in 1..9 : a = "r" \o ToString(m) IN IF "r" \in DOMAIN rec.obs /\ j <= Len(rec.obs.r) THEN rec.obs.r[j] ELSE "missing"
+  ELSE IF a \in DOMAIN rec.obs THEN rec.obs[a] ELSE "missing"
+CellVerdict(rec) ==
+  LET c == rec.cell
+      dv == SeqSetC(rec.dv)
+      ref == CellRef(c)
+      asis == CellAsIs(c, dv)
+      actout == ActOf(rec, "out")
+      always == {"out", "length", "name"}
+      judged == SelectSeq(CellAspects(c), LAMBDA a : a \in always \/ actout = "ok")
+      one(a) == LET act == ActOf(rec, a)
+                    refok == (a \in always \/ ref["out"][1] = "ok") /\ act = ref[a][1]
+                    asisok == (a \in always \/ asis["out"][1] = "ok") /\ act = asis[a][1]
+                    dev == IF asis[a][2] # "" THEN asis[a][2] ELSE asis["out"][2]
+                IN IF refok THEN [aspect |-> a, v |-> "pass", dev |-> "", exp |-> ref[a][1], act |-> act]
+                   ELSE IF asisok /\ dev # "" THEN [aspect |-> a, v |-> "known", dev |-> dev, exp |-> ref[a][1], act |-> act]
+                   ELSE [aspect |-> a, v |-> "violation", dev |-> "", exp |-> ref[a][1], act |-> act]
+      all == [j \in 1..Len(judged) |-> one(judged[j])]
+  IN [id |-> rec.id, mis |-> SelectSeq(all, LAMBDA r : r.v # "pass"), n |-> Len(judged)]
+CJudgeInit == /\ MInit
+              /\ LET all == ndJsonDeserialize(IOEnv.OBS_FILE) IN
+                 \E j \in 1..Len(all) : c_cell = all[j].cell /\ PrintT(ToJson(CellVerdict(all[j])))
 =============================================================================
